@@ -171,4 +171,21 @@ theorem save_params_counterexample :
     run (cacheWorld .fixed) [.save 0, .params 1, .params 0] = [.derived, .params [1, 2], .params [1, 2]] := by
   constructor <;> decide
 
+/-- F7 (recorded, not repaired): the hypothesis `finIdem` of `reread` is necessary.  `Finalize`
+(through `BatchSafe`, which re-batches with the size of the first batch) is not idempotent on every
+finalized output; `save()/from_save()` finalizes again, so the reloaded environment then differs.
+Here `regroup` stands for such a `Finalize`: [0,1|2,3,4] ↦ [0,1|2,3|4] written with batch ids. -/
+def regroupP : PureSt :=
+  { f := fun xs => if xs = [12, 345] then [12, 34, 5] else xs, dem := fun _ d => d, par := [] }
+
+def regroupWorld : World :=
+  { fin := regroupP, variant := .fixed,
+    objs := [some { src := { src5 with items := [12, 345] }, ownFin := false,
+                    nodes := [.finalize idP none, .pure idP] }] }
+
+theorem finalize_twice_counterexample :
+    finF regroupWorld.fin [12, 345] ≠ [12, 345] ∧
+    run regroupWorld [.full 0, .save 0, .full 1] = [.items [12, 345], .derived, .items [12, 34, 5]] := by
+  constructor <;> decide
+
 end Coba.C04
